@@ -152,3 +152,11 @@ Theorem C12_station_port_exact : forall cfg q ca m e rs w c sc svs sv,
   r_port rs = Some (sv_port sv).
 Proof. exact station_port_exact. Qed.
 Print Assumptions C12_station_port_exact.
+
+(* Serving any list of requests leaves the configuration as it was, and every request is
+   answered exactly as if it were the first (no request influences a later one). *)
+Theorem C12_config_invariant : forall l cfg,
+  fst (serve_all cfg l) = cfg /\
+  snd (serve_all cfg l) = map (fun i => register_bd cfg (i_req i) (i_addr i) (i_method i) (i_env i)) l.
+Proof. exact serve_all_spec. Qed.
+Print Assumptions C12_config_invariant.
